@@ -6,4 +6,7 @@ NestedN == { <<k, c>> : k \in NestedKinds, c \in {0 - 800, 0 - 100, 1} }
 OpsN == SetOps({"ESR", "ESE"}, {0, 5}) \cup SetOps({"SRE"}, {2, 5, 6})
         \cup Cmd0({"*CLS", "*ESR?", "*STB?"}) \cup Cmd1s({"*ESE"}, {0, 5}) \cup Cmd1s({"*SRE"}, {2, 5})
         \cup PushOps({0 - 800, 0 - 100}) \cup {<<"pop">>, <<"clear">>}
+\* operations under a re-entering service-request handler: register writes, pushes, the commands that can raise MSS
+SrqS == { <<k>> \o o : k \in SrqKinds, o \in SetOps({"ESR", "ESE"}, {0, 5}) \cup SetOps({"SRE"}, {2, 5}) \cup PushOps({0 - 800, 0 - 100})
+                                             \cup Cmd1s({"*ESE"}, {0, 5}) \cup Cmd1s({"*SRE"}, {2, 5}) \cup Cmd0({"*OPC"}) }
 =============================================================================
